@@ -181,3 +181,170 @@ class DisplayReadback(Harness):
 
 def harnesses(tier):
     return [Prettify(tier)]
+
+
+# --------------------------------------------------------------------------------------------------------------
+from .c15 import stub_eval_expr_value
+from .c09 import CANON_STUB, DEFAULT_PARTS
+
+
+class FactorRendering(Harness):
+    """the `u` format pattern must print the factor and divisor whenever the reply carries them"""
+    name = 'number_parts.u_pattern.factor_shown'
+    props = ('C06', 'C04')
+    entry_name = 'NumberPartsFmt::to_spans'
+    describe = 'NumberPartsFmt::to_spans("n u") on parts with factor / divfactor present or absent and a display unit that is dimensionless, a single unit or a quotient'
+    bounds = ['concrete marker strings for numeral, factor and divisor; 3 unit shapes x 4 presence combinations']
+    expect_classes = ['return']
+    loop_bound = 30
+    _concrete = None
+
+    def build(self, ex, I):
+        hf = ex.choose(2, 'factor present')
+        hd = ex.choose(2, 'divfactor present')
+        shape = ex.choose(3, 'unit shape')
+        unit = [dim({}), dim({'meter': (True, 1)}), dim({'meter': (True, 1), 'second': (True, -1)})][shape]
+        f = ex.prog.src.structs['NumberParts']
+        vals = [none(ex)] * len(f)
+        vals[f.index('exact_value')] = some(ex, 'NUM')
+        vals[f.index('factor')] = some(ex, 'FAC') if hf else none(ex)
+        vals[f.index('divfactor')] = some(ex, 'DIV') if hd else none(ex)
+        vals[f.index('raw_unit')] = some(ex, unit)
+        parts = Struct('NumberParts', vals)
+        fmt = Struct('NumberPartsFmt', [ref(parts), 'n u'])
+        return [fmt], {'hf': hf, 'hd': hd, 'shape': shape}
+
+    def entry(self, ex, args, ctx):
+        return ex.call(None, 'output::number_parts::NumberPartsFmt::to_spans', [ref(args[0])])
+
+    def post(self, ex, ctx, outcome):
+        texts = []
+        for s in deref_all(outcome[1]).fields:
+            s = deref_all(s)
+            for fl in s.fields:
+                fl = deref_all(fl)
+                if isinstance(fl, Enum) and fl.ty == 'Cow':
+                    fl = deref_all(fl.fields[0])
+                if isinstance(fl, str):
+                    texts.append(fl)
+        shown = ''.join(texts)
+        return [('numeral is printed', 'NUM' in shown),
+                ('factor is printed iff the reply has one (printed: %r)' % shown, ('FAC' in shown) == bool(ctx['hf'])),
+                ('divisor is printed iff the reply has one (printed: %r)' % shown, ('DIV' in shown) == bool(ctx['hd'])),
+                ('unit names are printed', ('meter' in shown) == (ctx['shape'] > 0) and ('second' in shown) == (ctx['shape'] == 2))]
+
+    def case(self, ctx, vals, label):
+        c = Harness.case(self, ctx, vals, label)
+        c['inputs'].update({'factor': ctx['hf'], 'divfactor': ctx['hd'], 'shape': ctx['shape']})
+        return c
+
+    def native(self, inputs, label):
+        return [{'mode': 'query', 'text': t} for t in ('1 -> 2', '3 -> 1/4', '10 m -> 2 m', '1 -> 2 / 3')]
+
+    def judge(self, inputs, label, obs):
+        import re
+        bad = []
+        for text, o in zip(('1 -> 2', '3 -> 1/4', '10 m -> 2 m', '1 -> 2 / 3'), obs):
+            j = (o.get('json') or {}).get('value') or {}
+            disp = o.get('display') or ''
+            for key, mark in (('factor', '*'), ('divfactor', '/')):
+                if j.get(key) and str(j[key]) not in disp.replace(j.get('exactValue') or '\0', '', 1):
+                    bad.append('`%s` displays %r but the reply carries %s=%s' % (text, disp, key, j[key]))
+        return (bool(bad), '; '.join(bad) or 'factors are displayed')
+
+
+class BaseConversionUnit(Harness):
+    """`x -> base B`: the numeral printed and the unit printed must belong to the same (prettified) quantity"""
+    name = 'eval_query.base_conversion.unit_matches_numeral'
+    props = ('C06', 'C04')
+    entry = 'eval_query'
+    describe = ('`v m -> base B`: eval_query with the real to_parts / prettify path and the real prefix table; the digit printer records '
+                'which value it is asked to print; numeral * printed prefix = quantity')
+    loop_bound = 600
+    expect_classes = ['Result::Ok']
+    _concrete = None
+
+    def build(self, ex, I):
+        v = I.real('v')
+        ex.assume(v > 0)
+        name = ['meter', 'second'][ex.choose(2, 'display unit')]
+        ex.env['value'] = variant(ex, 'Value', 'Number', [number(rational(v), dim({'m' if name == 'meter' else 's': (True, 1)}))])
+        ex.env['pretty_unit'] = dim({name: (True, 1)})
+        ex.env['printed'] = []
+        table = dbvalues.prefixes()
+        rf = ex.prog.src.structs['Registry']
+        rvals = {f: MapV() for f in rf}
+        rvals['prefixes'] = Arr([Tup([n, rational(Fraction(val))]) for n, val in table])
+        rvals['datepatterns'] = Arr([])
+        cf = ex.prog.src.structs['Context']
+        cvals = {'registry': Struct('Registry', [rvals[f] for f in rf]), 'temporaries': MapV(), 'previous_result': none(ex)}
+        ctxv = Struct('Context', [cvals.get(f, Opaque(f)) for f in cf])
+        q = variant(ex, 'Query', 'Convert', [expr_const(ex, rational(Fraction(1))), variant(ex, 'Conversion', 'None'), some(ex, 16),
+                                             variant(ex, 'Digits', 'Default')])
+        return [ref(ctxv), ref(q)], {'v': v, 'name': name, 'table': {n: Fraction(val) for n, val in table}}
+
+    stubs = (SHOW_STUB, CANON_STUB,
+             (r'^eval_expr$', stub_eval_expr_value, 'eval_expr -> arbitrary positive length / time'),
+             (r'^Number::pretty_unit$', stub_pretty_unit, 'Number::pretty_unit -> meter / second'),
+             (r'^Number::numeric_value$', lambda ex, nc, a: (ex.env['printed'].append(numeric_parts(deref_all(a[0]).fields[0])[1]),
+                                                           Tup([some(ex, 'NUMERAL#%d' % len(ex.env['printed'])), none(ex)]))[1],
+              'Number::numeric_value -> records the value it is asked to print, returns a marker numeral'),
+             (r'^Number::unit_to_string$', lambda ex, nc, a: 'unitstring', 'Number::unit_to_string -> opaque'))
+
+    def post(self, ex, ctx, outcome):
+        r = deref_all(outcome[1])
+        if not is_ok(r):
+            return [('base conversion succeeds', False)]
+        rep = deref_all(payload(r))
+        parts = deref_all(deref_all(rep.fields[0]).fields[0])
+        f = ex.prog.src.structs['NumberParts']
+        ev = deref_all(parts.fields[f.index('exact_value')])
+        ru = deref_all(parts.fields[f.index('raw_unit')])
+        if ev.variant == 0:
+            return [('an exact numeral is present', False)]
+        marker = deref_all(ev.fields[0])
+        idx = int(str(marker).split('#')[1]) - 1
+        printed = zreal(ex.env['printed'][idx])
+        uname = None
+        if ru.variant == 1:
+            ents = dim_entries(ru.fields[0])
+            names = [k for k, (p, e) in ents.items() if p is True or simp(p) is True]
+            uname = names[0] if len(names) == 1 else None
+        base = ctx['name']
+        if uname is None or uname == base:
+            pv = Fraction(1)
+        else:
+            pre = uname[:-len(base)] if uname.endswith(base) else None
+            if pre not in ctx['table']:
+                return [('printed unit `%s` is prefix + %s' % (uname, base), False)]
+            pv = ctx['table'][pre]
+        return [('numeral printed for base 16 * printed unit `%s` = the quantity' % (uname or base), printed * zreal(pv) == zreal(ctx['v']))]
+
+    def prefer(self, ctx):
+        return [ctx['v'] == 5000, z3.IsInt(ctx['v'])]
+
+    def native(self, inputs, label):
+        v = Fraction(inputs['v'])
+        return [{'mode': 'query', 'text': '%s m -> hex' % frac_text(v)}, {'mode': 'query', 'text': '%s m' % frac_text(v)}]
+
+    def judge(self, inputs, label, obs):
+        a, b = obs
+        ja, jb = (a.get('json') or {}).get('value') or {}, b.get('json') or {}
+        ua, ub = ja.get('rawUnit'), jb.get('rawUnit')
+        ea, eb = ja.get('exactValue'), jb.get('exactValue')
+        if ea is None or eb is None:
+            return False, 'not exact'
+        try:
+            hexval = int(ea, 16)
+            decval = int(eb)
+        except ValueError:
+            return False, 'non-integer numerals %r %r' % (ea, eb)
+        bad = (ua == ub) and hexval != decval
+        return bad, '`-> hex` shows %s %s while the plain reply shows %s %s' % (ea, ua, eb, ub)
+
+
+_c06_base = harnesses
+
+
+def harnesses(tier):   # noqa: F811
+    return _c06_base(tier) + [FactorRendering(), BaseConversionUnit()]
